@@ -705,4 +705,194 @@ theorem lex_items : ∀ (items : List PItem) (st : PState) (cur : Char) (k : Nat
       have : k + 1 + r.length = k + (r.length + 1) := by omega
       rw [this]; rfl
 
+/-! ## groups -/
+
+theorem letter_facts (k : Kind) (rel : Bool) :
+    isWsp (letter k rel) = false ∧ (letter k rel == ',') = false ∧ kindOf (letter k rel) = some (k, rel) ∧
+    isDigit (letter k rel) = false ∧ isExpChar (letter k rel) = false ∧ letter k rel ≠ '.' ∧
+    isArc (letter k rel) = (k == .A) := by
+  cases k <;> cases rel <;> decide
+
+theorem lexGo_letter (f : Nat) (cur : Char) (n : Nat) (k : Kind) (rel : Bool) (r : List Char) :
+    lexGo (f + 1) cur n (letter k rel :: r) = (lexGo f (letter k rel) 0 r).map (PTok.cmd (letter k rel) :: ·) := by
+  obtain ⟨h1, h2, h3, _⟩ := letter_facts k rel
+  simp [lexGo, h1, h2, h3]
+
+theorem copyNumber_cmd (st : PState) (s : List Char) : (copyNumber st s).1.cmd = st.cmd := by
+  unfold copyNumber
+  dsimp only
+  split <;> rfl
+
+theorem emitItems_cmd : ∀ (items : List PItem) (st : PState), (emitItems st items).1.cmd = st.cmd := by
+  intro items
+  induction items with
+  | nil => intro st; rfl
+  | cons it r ih =>
+    intro st
+    rw [emitItems_cons]
+    simp only
+    rw [ih]
+    cases it with
+    | num s => exact copyNumber_cmd st s
+    | flag b => rfl
+
+/-- numbers at non-flag indices, flags at the flag indices of an arc group -/
+def itemsOk (k : Kind) : Nat → List PItem → Bool
+  | _, [] => true
+  | i, .num _ :: r => !isFlagIdx k i && itemsOk k (i + 1) r
+  | i, .flag _ :: r => isFlagIdx k i && itemsOk k (i + 1) r
+
+theorem posOk_of_itemsOk (cur : Char) (kind : Kind) (k0 : Nat) (harc : isArc cur = (kind == .A))
+    (hk0 : isArc cur = true → k0 % 7 = 0) :
+    ∀ (items : List PItem) (i : Nat), itemsOk kind i items = true → posOk cur (k0 + i) items = true := by
+  intro items
+  induction items with
+  | nil => intro i _; rfl
+  | cons it r ih =>
+    intro i h
+    have hfp : flagPos cur (k0 + i) = isFlagIdx kind i := by
+      unfold flagPos isFlagIdx
+      rw [harc]
+      cases hA : (kind == Kind.A) with
+      | false => simp
+      | true =>
+        have := hk0 (by rw [harc, hA])
+        have e : (k0 + i) % 7 = i % 7 := by omega
+        simp [e]
+    cases it with
+    | num s =>
+      simp only [itemsOk, Bool.and_eq_true] at h
+      simp only [posOk, hfp, Bool.and_eq_true]
+      exact ⟨h.1, by have := ih (i + 1) h.2; rwa [Nat.add_assoc]⟩
+    | flag b =>
+      simp only [itemsOk, Bool.and_eq_true] at h
+      simp only [posOk, hfp, Bool.and_eq_true]
+      exact ⟨h.1, by have := ih (i + 1) h.2; rwa [Nat.add_assoc]⟩
+
+theorem emitItems_inv : ∀ (items : List PItem) (st : PState), GoodItems items → PInv st → PInv (emitItems st items).1 := by
+  intro items
+  induction items with
+  | nil => intro st _ h; exact h
+  | cons it r ih =>
+    intro st hg hinv
+    rw [emitItems_cons]
+    exact ih _ (fun s hs => hg s (by simp [hs])) (emitItem_inv st it (fun s e => hg s (by rw [e]; simp)) hinv)
+
+structure WfGroup (g : OutGroup) : Prop where
+  len : g.k ≠ .Z → g.items.length = g.k.arity
+  good : GoodItems g.items
+  ok : itemsOk g.k 0 g.items = true
+  force : g.k = .M → g.force = true
+
+/-- the tokens one group is printed as -/
+def groupToks (st : PState) (g : OutGroup) : List PTok :=
+  if g.k == .Z then [.cmd 'z']
+  else
+    let st0 := if g.force then { st with cmd := none } else st
+    (if needLetter st0 g.k g.rel then [PTok.cmd (letter g.k g.rel)] else []) ++
+      itemsToks (emitCmd st0 g.k g.rel).1 g.items
+
+def groupsToks : PState → List OutGroup → List PTok
+  | _, [] => []
+  | st, g :: r => groupToks st g ++ groupsToks (emitGroup st g).1 r
+
+/-- relation between the printer state and the lexer's context between groups -/
+structure LInv (st : PState) (cur : Char) (k0 : Nat) : Prop where
+  cmd : match st.cmd with | none => cur = '\x00' | some (k, rel) => cur = letter k rel
+  arc : isArc cur = true → k0 % 7 = 0
+  inv : PInv st
+
+theorem arity_pos (k : Kind) (h : k ≠ .Z) : 0 < k.arity := by cases k <;> simp [Kind.arity] at h ⊢
+
+theorem lex_group (st : PState) (g : OutGroup) (rest : List Char) (cur : Char) (k0 f : Nat)
+    (hwf : WfGroup g) (hinv : LInv st cur k0) (hstop : StopAfter (emitGroup st g).1 rest)
+    (hf : ((emitGroup st g).2 ++ rest).length < f) :
+    ∃ f' cur' k0', rest.length < f' ∧ LInv (emitGroup st g).1 cur' k0' ∧
+      lexGo f cur k0 ((emitGroup st g).2 ++ rest) = (lexGo f' cur' k0' rest).map (groupToks st g ++ ·) := by
+  cases hz : (g.k == Kind.Z) with
+  | true =>
+    simp only [emitGroup, hz, if_true, List.cons_append, List.nil_append, List.length_cons] at hf hstop ⊢
+    obtain ⟨f0, rfl⟩ : ∃ f0, f = f0 + 1 := ⟨f - 1, by omega⟩
+    refine ⟨f0, 'z', 0, by omega, ⟨rfl, by intro h; exact absurd h (by decide), by intro h; exact absurd h (by decide)⟩, ?_⟩
+    have := lexGo_letter f0 cur k0 .Z true rest
+    simp only [letter, Kind.lower, if_true] at this
+    rw [this]; simp [groupToks, hz]
+  | false =>
+    have hkz : g.k ≠ .Z := by intro e; rw [e] at hz; exact absurd hz (by decide)
+    -- st0: state after the optional reset
+    generalize hst0 : (if g.force then { st with cmd := none } else st : PState) = st0
+    have hinv0 : PInv st0 := by
+      rw [← hst0]; cases g.force
+      · exact hinv.inv
+      · exact hinv.inv
+    have heg : emitGroup st g = ((emitItems (emitCmd st0 g.k g.rel).1 g.items).1,
+        (emitCmd st0 g.k g.rel).2 ++ (emitItems (emitCmd st0 g.k g.rel).1 g.items).2) := by
+      simp only [emitGroup, hz, Bool.false_eq_true, if_false, hst0]
+    have hgt : groupToks st g = (if needLetter st0 g.k g.rel then [PTok.cmd (letter g.k g.rel)] else []) ++
+        itemsToks (emitCmd st0 g.k g.rel).1 g.items := by
+      simp only [groupToks, hz, Bool.false_eq_true, if_false, hst0]
+    rw [heg] at hstop hf ⊢
+    rw [hgt]
+    have hlen := hwf.len hkz
+    cases hnl : needLetter st0 g.k g.rel with
+    | true =>
+      have hec : emitCmd st0 g.k g.rel =
+          ({ st0 with cmd := some (g.k, g.rel), prevDigit := false, prevDigitIsInt := false }, [letter g.k g.rel]) := by
+        simp only [emitCmd, hnl, if_true]
+      rw [hec] at hstop hf ⊢
+      simp only [List.cons_append, List.nil_append, List.length_cons, if_true] at hf hstop ⊢
+      obtain ⟨f0, rfl⟩ : ∃ f0, f = f0 + 1 := ⟨f - 1, by omega⟩
+      rw [lexGo_letter]
+      have hpos : posOk (letter g.k g.rel) (0 + 0) g.items = true :=
+        posOk_of_itemsOk (letter g.k g.rel) g.k 0 (letter_facts g.k g.rel).2.2.2.2.2.2 (by intro _; rfl) g.items 0 hwf.ok
+      obtain ⟨f1, hf1, h1⟩ := lex_items g.items _ (letter g.k g.rel) 0 rest f0 hwf.good (by simpa using hpos)
+        (by intro h; exact absurd h (by simp)) hstop (by omega)
+      refine ⟨f1, letter g.k g.rel, 0 + g.items.length, hf1, ⟨?_, ?_, ?_⟩, ?_⟩
+      · rw [emitItems_cmd]
+      · intro ha
+        rw [(letter_facts g.k g.rel).2.2.2.2.2.2] at ha
+        have : g.k = .A := by simpa using ha
+        rw [hlen, this]; rfl
+      · exact emitItems_inv _ _ hwf.good (by intro h; exact absurd h (by simp))
+      · rw [h1, Option.map_map]; rfl
+    | false =>
+      have hec : emitCmd st0 g.k g.rel = (st0, []) := by
+        simp only [emitCmd, hnl, Bool.false_eq_true, if_false]
+      rw [hec] at hstop hf ⊢
+      simp only [List.nil_append, Bool.false_eq_true, if_false] at hf hstop ⊢
+      -- no reset happened and the previous letter implies this command
+      have hforce : g.force = false := by
+        cases hfo : g.force with
+        | false => rfl
+        | true =>
+          rw [hfo] at hst0
+          simp only [if_true] at hst0
+          rw [← hst0] at hnl
+          simp [needLetter] at hnl
+      have hst : st0 = st := by rw [← hst0, hforce]; rfl
+      subst hst
+      have hcmd : st0.cmd = some (g.k, g.rel) ∨ (st0.cmd = some (.M, g.rel) ∧ g.k = .L) := by
+        unfold needLetter at hnl
+        simp only [Bool.and_eq_false_iff, bne_eq_false_iff_eq, Bool.not_eq_false', Bool.and_eq_true, beq_iff_eq] at hnl
+        rcases hnl with h | h
+        · exact Or.inl h
+        · exact Or.inr h
+      have hcur : isArc cur = (g.k == .A) := by
+        have hc := hinv.cmd
+        rcases hcmd with h | ⟨h, hk⟩
+        · rw [h] at hc; simp only at hc; rw [hc]; exact (letter_facts g.k g.rel).2.2.2.2.2.2
+        · rw [h] at hc; simp only at hc; rw [hc, hk]; exact (letter_facts .M g.rel).2.2.2.2.2.2
+      have hpos : posOk cur (k0 + 0) g.items = true :=
+        posOk_of_itemsOk cur g.k k0 hcur hinv.arc g.items 0 hwf.ok
+      obtain ⟨f1, hf1, h1⟩ := lex_items g.items st0 cur k0 rest f hwf.good (by simpa using hpos) hinv.inv hstop hf
+      refine ⟨f1, cur, k0 + g.items.length, hf1, ⟨?_, ?_, ?_⟩, ?_⟩
+      · rw [emitItems_cmd]; exact hinv.cmd
+      · intro ha
+        have h7 := hinv.arc ha
+        rw [hcur] at ha
+        have : g.k = .A := by simpa using ha
+        rw [hlen, this]; simp only [Kind.arity]; omega
+      · exact emitItems_inv _ _ hwf.good hinv.inv
+      · rw [h1]
+
 end Verif.Proofs.SvgLex
